@@ -6,7 +6,9 @@ For every function in `pedantic/decorators/**` that takes the decorated callable
 `@wraps(<the decorated-function parameter>)`, whether it is returned, and the `iscoroutinefunction` dispatch.
 For the small decorators the wrapper BODY is translated statement by statement:
 
-    print(<pure>)                                   -> .print
+    print(<pure>)                                   -> .print [what is formatted: `{args}` -> .args, `{kwargs}` -> .kwargs, `{x!r}` -> .reprOf x,
+                                                        `{x}` / a bare `x` -> .strOf x for a local x bound to a call result or the factory's value
+                                                        argument; names of functions, counters, times format nothing of the user's]
     _raise_warning(msg=<pure>, category=C)          -> .warn "C"     (once per forced `warnings.warn` in the helper)
     <wrapper>.num_calls += k                        -> .incr k
     x = <pure>                                      -> .pure "x"
@@ -19,7 +21,7 @@ For the small decorators the wrapper BODY is translated statement by statement:
     the rename loop of rename_kwargs                -> .rename {onListed, onOther}
     FunctionCall(...).assert_uses_kwargs()          -> .kwargsGuard
     return <local|factory parameter|None|call>      -> .ret …
-    raise X(<pure>)                                 -> .raise "X"
+    raise X(<pure>)                                 -> .raise "X" [what the message formats]
     if <cond>: … else: …                            -> .ite cond […] […]
         (tests on the class argument of `overrides`, about the decorated function's name:  name [not] in dir(base) -> .baseHasName,
          hasattr(base, name) -> .baseHasAttr,  name in base.__dict__ | vars(base) -> .baseOwnsName,
@@ -42,7 +44,8 @@ from extract import Skip, src, lean_str, lean_bool, HEADER
 REQUIRED = ['trace', 'timer', 'count_calls', 'deprecated', 'trace_if_returns', 'does_same_as_function', 'rename_kwargs',
             'mock', 'unimplemented', 'overrides', 'require_kwargs']
 PURE_FUNCS = {'repr', 'str', 'len', 'type', 'dict', 'list', 'tuple', 'id', 'isinstance', 'format', 'DecoratedFunction',
-              'FunctionCall', 'get_context', 'timedelta', 'int', 'float', 'bool'}
+              'FunctionCall', 'get_context', 'timedelta', 'int', 'float', 'bool', '_Shown', '_shown_args', '_shown_kwargs'}
+SHOWN_HELPERS = ('_Shown', '_shown_args', '_shown_kwargs')
 PURE_METHODS = {'now', 'items', 'keys', 'values', 'format', 'total_seconds', 'get', 'join', 'utcnow', 'time', 'perf_counter',
                 'monotonic'}
 COUNTER_ATTR = 'num_calls'
@@ -93,18 +96,37 @@ def _first_param(fn):
     return ps[0].arg if ps else None
 
 
+def _hands_out(fn, names):
+    """does `fn` (own statements) return one of `names`, bare or through update_wrapper(...) / wraps(...)(...)"""
+    for n in _own_nodes(fn):
+        if isinstance(n, ast.Return) and n.value is not None:
+            for x in ast.walk(n.value):
+                if isinstance(x, ast.Name) and x.id in names:
+                    return True
+    return False
+
+
 def decorator_levels(top):
-    """[(level function, enclosing factory functions)] — a level takes the decorated callable as first parameter and either
-    has wrapper defs as direct children or returns its first parameter unchanged"""
+    """[(level function, enclosing factory functions, hoisted wrapper defs)] — a level takes the decorated callable as first parameter
+    and either has wrapper defs as direct children or returns its first parameter unchanged.  Hoisted: the wrapper defs are direct
+    children of an ENCLOSING factory and the level (which has none of its own) hands them out — one wrapper object per factory call,
+    shared by every application of the decorator object"""
     out = []
 
     def go(fn, enclosing):
         kids = _direct_defs(fn)
         wrappers = [k for k in kids if _is_wrapper_def(k)]
+        plain = [k for k in kids if not _is_wrapper_def(k)]
+        # wrapper defs next to a nested function that takes one callable and hands those wrappers out: the nested function is the level
+        for k in plain:
+            if wrappers and _first_param(k) is not None and not any(_is_wrapper_def(x) for x in _direct_defs(k)) \
+                    and _hands_out(k, {w.name for w in wrappers}):
+                out.append((k, enclosing + [fn], wrappers))
+                return
         p = _first_param(fn)
         returns_param = any(isinstance(n, ast.Return) and isinstance(n.value, ast.Name) and n.value.id == p for n in _own_nodes(fn))
         if p is not None and (wrappers or (returns_param and not kids)):
-            out.append((fn, enclosing))
+            out.append((fn, enclosing, None))
             return
         for k in kids:
             go(k, enclosing + [fn])
@@ -199,11 +221,12 @@ def _get_return_value_ok(repo, name):
 class Level:
     """one decorator level: translation context"""
 
-    def __init__(self, repo, module, top, fn, enclosing):
+    def __init__(self, repo, module, top, fn, enclosing, hoisted=None):
         self.repo, self.module, self.top, self.fn, self.enclosing = repo, module, top, fn, enclosing
         self.fparam = _first_param(fn)
         self.factory_params = [p for f in enclosing for p in _params(f)] + [p for p in _params(fn) if p != self.fparam]
-        self.wrappers = [k for k in _direct_defs(fn) if _is_wrapper_def(k)]
+        self.hoisted = hoisted is not None
+        self.wrappers = list(hoisted) if hoisted is not None else [k for k in _direct_defs(fn) if _is_wrapper_def(k)]
         self.wrapper_names = [w.name for w in self.wrappers]
         self.coro_aliases = {}      # local name -> 'wrapped' | 'other'  (x = inspect.iscoroutinefunction(P))
         self.df_aliases = {}        # local name -> P   (x = DecoratedFunction(func=P))
@@ -277,6 +300,7 @@ class WrapperTranslator:
         self.lv, self.w = lv, w
         self.vararg, self.kwarg = w.args.vararg.arg, w.args.kwarg.arg
         self.locals = set()
+        self.user_locals = set()     # locals bound to what a call returned / an await produced: objects of the user
         self.renamed_var = None      # local dict filled by the rename loop
         self.empty_dicts = set()
         self.fc_aliases = set()      # locals bound to FunctionCall(func=<DecoratedFunction(P)>, args=vararg, kwargs=kwarg)
@@ -396,6 +420,60 @@ class WrapperTranslator:
         return isinstance(e, ast.Call) and getattr(e.func, 'id', None) == 'dir' and len(e.args) == 1 \
             and isinstance(e.args[0], ast.Name) and e.args[0].id in self.lv.factory_params
 
+    def _user_names(self):
+        return {n for n in (self.vararg, self.kwarg) if n} | self.user_locals | set(self.lv.factory_params)
+
+    def _fmt_one(self, e, conv):
+        """what formatting the expression `e` (conversion: -1 / ord('s') -> str, ord('r') / ord('a') -> repr) makes Python call on objects of the user"""
+        rep = conv in (ord('r'), ord('a'))
+        if isinstance(e, ast.Name):
+            if e.id == self.vararg:
+                return ['.args']
+            if e.id == self.kwarg:
+                return ['.kwargs']
+            if e.id in self.user_locals:
+                return [f"({'.reprOf' if rep else '.strOf'} (.var {lean_str(e.id)}))"]
+            if e.id in self.lv.factory_params:
+                return [f"({'.reprOf' if rep else '.strOf'} .param)"]
+            return []
+        if isinstance(e, ast.Call) and isinstance(e.func, ast.Name) and e.func.id in ('repr', 'str') and len(e.args) == 1 and not e.keywords:
+            return self._fmt_one(e.args[0], ord('r') if e.func.id == 'repr' else -1)
+        if isinstance(e, ast.Call) and isinstance(e.func, ast.Name) and e.func.id in SHOWN_HELPERS and len(e.args) == 1 and not e.keywords:
+            # a value wrapped for display: `repr` / `str` of the wrapper catch what the value's own method raises (helper text checked)
+            if not _shown_helpers_ok(self.lv.repo):
+                raise NotInSubset(f'{e.func.id}(…): helper_methods._Shown is not the known never-raising display wrapper')
+            return []
+        if isinstance(e, ast.JoinedStr):
+            return self.fmt_uses([e])
+        mentioned = {n.id for n in ast.walk(e) if isinstance(n, ast.Name)}
+        # `func.__name__`, `wrapper.num_calls`, `datetime.now()`, a local computed from such: nothing of the user's is formatted
+        bad = mentioned & ({n for n in (self.vararg, self.kwarg) if n} | self.user_locals)
+        if bad:
+            raise NotInSubset(f'formatting of an expression over {sorted(bad)}: {ast.unparse(e)[:60]}')
+        for n in ast.walk(e):
+            if isinstance(n, ast.Name) and n.id in self.lv.factory_params and n.id != self.lv.fparam:
+                # `other_func.__name__` is fine; the bare value argument inside a larger expression is not analysed
+                par = [a for a in ast.walk(e) if isinstance(a, ast.Attribute) and a.value is n]
+                if not par:
+                    raise NotInSubset(f'formatting of an expression over {n.id}: {ast.unparse(e)[:60]}')
+        return []
+
+    def fmt_uses(self, exprs):
+        """`print(e1, e2, …)` / the arguments of an exception constructor: the formatting operations, in evaluation order"""
+        out = []
+        for e in exprs:
+            if isinstance(e, ast.Constant):
+                continue
+            if isinstance(e, ast.JoinedStr):
+                for v in e.values:
+                    if isinstance(v, ast.FormattedValue):
+                        out += self._fmt_one(v.value, v.conversion)
+                        if v.format_spec is not None:
+                            out += self.fmt_uses([v.format_spec])
+                continue
+            out += self._fmt_one(e, -1)
+        return out
+
     def warn_events(self, call):
         """number of forced warnings a `_raise_warning(...)` / `warnings.warn(...)` statement emits, and the category"""
         f = call.func
@@ -427,12 +505,14 @@ class WrapperTranslator:
                 return []
             if isinstance(v, ast.Call) and isinstance(v.func, ast.Name) and v.func.id == 'print':
                 if all(lv.is_pure(a, self.callees) for a in v.args) and all(lv.is_pure(k.value, self.callees) for k in v.keywords):
-                    return ['.print']
+                    return [f'.print [{", ".join(self.fmt_uses(v.args))}]']
                 raise NotInSubset('print of an impure expression')
             if isinstance(v, ast.Call):
                 we = self.warn_events(v)
                 if we is not None:
                     n, cat = we
+                    if self.fmt_uses(list(v.args) + [k.value for k in v.keywords]):
+                        raise NotInSubset('a warning message that formats arguments / results')
                     return [f'.warn {lean_str(cat)}'] * n
                 # call.assert_uses_kwargs()
                 if isinstance(v.func, ast.Attribute) and v.func.attr == 'assert_uses_kwargs' and isinstance(v.func.value, ast.Name) \
@@ -479,9 +559,11 @@ class WrapperTranslator:
             if cf:
                 c, pos, kw, aw = cf
                 self.locals.add(x)
+                self.user_locals.add(x)
                 return [f'.call (some {lean_str(x)}) {c} {pos} {kw} {lean_bool(aw)}']
             if isinstance(v, ast.Await) and isinstance(v.value, ast.Name) and v.value.id in self.locals:
                 self.locals.add(x)
+                self.user_locals.add(x)
                 return [f'.await (some {lean_str(x)}) {lean_str(v.value.id)}']
             if isinstance(v, ast.Dict) and not v.keys:
                 self.empty_dicts.add(x)
@@ -506,6 +588,9 @@ class WrapperTranslator:
                     return [f'.pure {lean_str(x)}']
                 raise NotInSubset('FunctionCall over other arguments than (*args, **kwargs)')
             if lv.is_pure(v, self.callees):
+                if {n.id for n in ast.walk(v) if isinstance(n, ast.Name)} & ({n for n in (self.vararg, self.kwarg) if n} | self.user_locals) \
+                        and not isinstance(v, ast.Call):
+                    raise NotInSubset(f'a local computed from arguments / results: {ast.unparse(s)[:60]}')
                 self.locals.add(x)
                 return [f'.pure {lean_str(x)}']
             raise NotInSubset(f'assignment of {ast.unparse(v)}')
@@ -536,15 +621,16 @@ class WrapperTranslator:
             e = s.exc
             if e is None or s.cause is not None:
                 raise NotInSubset('re-raise / raise from')
-            name = None
+            name, uses = None, []
             if isinstance(e, ast.Call) and isinstance(e.func, ast.Name) and all(lv.is_pure(a, self.callees) for a in e.args) \
                     and all(lv.is_pure(k.value, self.callees) for k in e.keywords):
                 name = e.func.id
+                uses = self.fmt_uses(list(e.args) + [k.value for k in e.keywords])
             elif isinstance(e, ast.Name) and e.id not in self.locals:
                 name = e.id
             if name is None:
                 raise NotInSubset(f'raise {ast.unparse(e)}')
-            return [f'.raise {lean_str(name)}']
+            return [f'.raise {lean_str(name)} [{", ".join(uses)}]']
         if isinstance(s, ast.If):
             c = self.cond(s.test)
             t = self.block(s.body)
@@ -658,6 +744,40 @@ class WrapperTranslator:
 
 
 _RW_CACHE = {}
+_SHOWN_CACHE = {}
+
+
+def _shown_helpers_ok(repo):
+    """helper_methods._Shown is, literally, a wrapper whose __repr__ / __str__ are `try: return repr|str(self._value)` /
+    `except Exception: return object.__repr__(self._value)` around the constructor argument, and _shown_args / _shown_kwargs wrap every
+    element / value in it"""
+    if repo in _SHOWN_CACHE:
+        return _SHOWN_CACHE[repo]
+    ok = False
+    try:
+        tree = ast.parse(src(repo, 'pedantic/helper_methods.py'))
+        cls = [c for c in tree.body if isinstance(c, ast.ClassDef) and c.name == '_Shown'][0]
+        ms = {m.name: m for m in cls.body if isinstance(m, ast.FunctionDef)}
+
+        def body(fn):
+            return [b for b in fn.body if not (isinstance(b, ast.Expr) and isinstance(b.value, ast.Constant))]
+
+        def safe(fn, conv):
+            b = body(fn)
+            if len(b) != 1 or not isinstance(b[0], ast.Try) or b[0].finalbody or b[0].orelse or len(b[0].handlers) != 1:
+                return False
+            h = b[0].handlers[0]
+            return [_norm(x) for x in b[0].body] == [f'return{conv}(self._value)'] and isinstance(h.type, ast.Name) and h.type.id in ('Exception', 'BaseException') \
+                and [_norm(x) for x in h.body] == ['returnobject.__repr__(self._value)']
+        init = [_norm(x) for x in body(ms['__init__'])] == ['self._value=value'] and _params(ms['__init__']) == ['self', 'value']
+        fns = {f.name: f for f in tree.body if isinstance(f, ast.FunctionDef)}
+        a = [_norm(x) for x in body(fns['_shown_args'])] == ['returntuple((_Shown(a)forainargs))'] and _params(fns['_shown_args']) == ['args']
+        k = [_norm(x) for x in body(fns['_shown_kwargs'])] == ['return{k:_Shown(v)fork,vinkwargs.items()}'] and _params(fns['_shown_kwargs']) == ['kwargs']
+        ok = bool(init and safe(ms['__repr__'], 'repr') and safe(ms['__str__'], 'str') and a and k)
+    except (OSError, KeyError, IndexError, SyntaxError):
+        ok = False
+    _SHOWN_CACHE[repo] = ok
+    return ok
 
 
 def _raise_warning_count(repo):
@@ -717,6 +837,8 @@ def dispatch_of(lv: Level):
     def ret_name(stmts):
         if len(stmts) == 1 and isinstance(stmts[0], ast.Return) and isinstance(stmts[0].value, ast.Name):
             return stmts[0].value.id
+        if len(stmts) == 1 and isinstance(stmts[0], ast.Return) and copy_call(stmts[0].value, lv) is not None:
+            return copy_call(stmts[0].value, lv)          # `return update_wrapper(wrapper, func)`: the wrapper itself comes back
         return None
     if not own:
         return '.unknown', None
@@ -796,6 +918,12 @@ def level_copies(lv):
     """{wrapper name: index of the own statement of the decorator level that copies the metadata onto it}"""
     out = {}
     for i, s in enumerate(lv.fn.body):
+        if isinstance(s, ast.If):            # `if …: return update_wrapper(a, func) else: return update_wrapper(b, func)`
+            for r in s.body + s.orelse:
+                w = copy_call(r.value, lv) if isinstance(r, ast.Return) and r.value is not None else None
+                if w is not None and w not in out:
+                    out[w] = i
+            continue
         e = None
         if isinstance(s, ast.Expr):
             e = s.value
@@ -865,6 +993,7 @@ class WrapperTranslatorForLevel(WrapperTranslator):
         self.lv = lv
         self.vararg = self.kwarg = None
         self.locals = set()
+        self.user_locals = set()
         self.renamed_var = None
         self.empty_dicts = set()
         self.fc_aliases = set()
@@ -873,8 +1002,8 @@ class WrapperTranslatorForLevel(WrapperTranslator):
         self.callees = {lv.fparam} | set(lv.factory_params)
 
 
-def translate_level(repo, module, top, fn, enclosing):
-    lv = Level(repo, module, top, fn, enclosing)
+def translate_level(repo, module, top, fn, enclosing, hoisted=None):
+    lv = Level(repo, module, top, fn, enclosing, hoisted)
     required = top.name in REQUIRED
     disp, rest = dispatch_of(lv)
     if required and disp == '.unknown':
@@ -885,7 +1014,7 @@ def translate_level(repo, module, top, fn, enclosing):
     for w in lv.wrappers:
         is_async = isinstance(w, ast.AsyncFunctionDef)
         is_gen = any(isinstance(n, (ast.Yield, ast.YieldFrom)) for n in ast.walk(w))
-        wraps = has_wraps(w, lv.fparam) or w.name in copies
+        wraps = (has_wraps(w, lv.fparam) and not lv.hoisted) or w.name in copies
         returned = w.name in ret
         body = 'Option.none'
         try:
@@ -904,6 +1033,8 @@ def translate_level(repo, module, top, fn, enclosing):
     if lv.counter_init_at is not None:
         wn, at = lv.counter_init_at
         wdef = [w for w in lv.wrappers if w.name == wn][0]
+        if lv.hoisted:
+            raise Skip(f'{top.name}: counter on a wrapper that is shared by all applications of the decorator')
         copy_at = lv.fn.body.index(wdef) if has_wraps(wdef, lv.fparam) else copies.get(wn)
         if wn in copies and has_wraps(wdef, lv.fparam):
             copy_at = max(copy_at, copies[wn])        # copied twice: the later one decides
@@ -917,7 +1048,7 @@ def translate_level(repo, module, top, fn, enclosing):
     text = (f'/-- `{top.name}` in {module}.py (decorated-function parameter `{lv.fparam}`) -/\n'
             f'def {ident} : Deco :=\n  {{ module := {lean_str(module)}, name := {lean_str(top.name)},\n    wrappers := [\n' + ',\n'.join(wrappers) + '],\n'
             f'    dispatch := {disp},\n    decoTime := {dt},\n    counterInit := {counter_init},\n    counterInitAfterCopy := {lean_bool(init_after_copy)},\n'
-            f'    renameDict := {rename_dict} }}\n')
+            f'    renameDict := {rename_dict},\n    freshWrappers := {lean_bool(not lv.hoisted)} }}\n')
     return ident, text, rows
 
 
@@ -983,8 +1114,16 @@ structure RenameRule where
   onOther : Option KeyExpr
 deriving DecidableEq, Repr
 
+/-- what a `print(…)` / an exception message makes Python format — the places where `__repr__` / `__str__` of objects of the USER run
+    inside a wrapper: `{args}` (the tuple: `repr` of every positional argument), `{kwargs}` (`repr` of every value), `{x!r}`, `{x}` -/
+inductive Fmt where
+  | args | kwargs
+  | reprOf (e : Expr)
+  | strOf (e : Expr)
+deriving DecidableEq, Repr
+
 inductive Stmt where
-  | print
+  | print (uses : List Fmt)
   | warn (cat : String)
   | incr (k : Int)
   | pure (x : String)
@@ -993,7 +1132,7 @@ inductive Stmt where
   | rename (r : RenameRule)
   | kwargsGuard
   | ret (e : Expr)
-  | raise (cls : String)
+  | raise (cls : String) (uses : List Fmt)
   | ite (c : Cond) (t e : List Stmt)
   | tryCatch (b : List Stmt) (k : Catch) (h : List Stmt)
 deriving Repr
@@ -1029,6 +1168,10 @@ structure Deco where
   counterInitAfterCopy : Bool
   /-- `param_dict = {p.<key>: p.<value> for p in params}` -/
   renameDict : Option (String × String)
+  /-- every wrapper `def` is nested in the function that receives the decorated callable: each APPLICATION of the decorator builds its
+      own wrapper objects.  false: the wrapper defs sit in the enclosing factory and the decorator only dresses and hands them out — all
+      applications of one decorator object share one wrapper object per wrapper name -/
+  freshWrappers : Bool
 deriving Repr
 
 structure Row where
@@ -1122,7 +1265,129 @@ def class_decorators(repo):
             if isinstance(n, ast.Call) and getattr(n.func, 'id', None) == 'setattr' and len(n.args) == 3 and isinstance(n.args[2], ast.Call) \
                     and getattr(n.args[2].func, 'id', None) == 'decorator':
                 replaces_with_plain = True
-    return pairs, uses_getattr, replaces_with_plain, handles_property, sorted(set(member_types))
+    slots, keeps_missing = property_rebuild(tree, fam[0]) if (fam and handles_property) else ([], False)
+    return pairs, uses_getattr, replaces_with_plain, handles_property, sorted(set(member_types)), slots, keeps_missing
+
+
+PROPERTY_SLOTS = ('fget', 'fset', 'fdel')
+
+
+def _wrap_helper_ok(tree, name):
+    """`def <name>(prop, decorator)`: `return decorator(prop) if prop is not None else None` (or the mirrored conditional, or
+    `if prop is None: return None` + `return decorator(prop)`) -> (name of the accessor parameter, name of the decorator parameter)"""
+    fn = [n for n in tree.body if isinstance(n, ast.FunctionDef) and n.name == name]
+    if len(fn) != 1:
+        raise Skip(f'for_all_methods: helper {name} not found')
+    fn = fn[0]
+    ps = _params(fn)
+    if len(ps) != 2 or fn.args.vararg or fn.args.kwarg:
+        raise Skip(f'{name}: parameters')
+    body = [b for b in fn.body if not (isinstance(b, ast.Expr) and isinstance(b.value, ast.Constant))]
+
+    def applied(e, a, d):
+        return isinstance(e, ast.Call) and isinstance(e.func, ast.Name) and e.func.id == d and not e.keywords and len(e.args) == 1 \
+            and isinstance(e.args[0], ast.Name) and e.args[0].id == a
+
+    def none(e):
+        return isinstance(e, ast.Constant) and e.value is None
+    for a, d in ((ps[0], ps[1]), (ps[1], ps[0])):
+        if len(body) == 1 and isinstance(body[0], ast.Return) and isinstance(body[0].value, ast.IfExp):
+            ie = body[0].value
+            t = _norm(ie.test)
+            # an accessor is a function or None: `is not None`, its truth value and `callable(…)` say the same
+            if t in (f'{a}isnotNone', a, f'callable({a})', f'None!={a}', f'{a}!=None', f'Noneisnot{a}') and applied(ie.body, a, d) and none(ie.orelse):
+                return a, d
+            if t in (f'{a}isNone', f'not{a}', f'{a}==None', f'Noneis{a}') and none(ie.body) and applied(ie.orelse, a, d):
+                return a, d
+        if len(body) == 2 and isinstance(body[0], ast.If) and not body[0].orelse and _norm(body[0].test) in (f'{a}isNone', f'not{a}') \
+                and len(body[0].body) == 1 and _norm(body[0].body[0]) == 'returnNone' and isinstance(body[1], ast.Return) and applied(body[1].value, a, d):
+            return a, d
+    raise Skip(f'{name}: not `decorator(accessor) if accessor is not None else None`')
+
+
+def property_rebuild(tree, fam):
+    """how for_all_methods rebuilds a property member: [(slot of the NEW property, accessor of the OLD one it is built from)] and whether
+    a missing accessor stays missing (an existing one is passed through the decorator exactly once).  Recognised: in the branch guarded by
+    `isinstance(<member>, property)`, `property(fget=E1, fset=E2, fdel=E3)` / `property(E1, E2, E3)` (directly inside setattr or through one
+    local), every Ei — directly or through one local — `<helper>(prop=<member>.<acc>, decorator=<the decorator parameter>)` with the helper
+    text checked by `_wrap_helper_ok`.  Anything else (a list of the existing accessors splatted into property(), a slot left out, a
+    computed slot) -> Skip."""
+    deco_param = None
+    for a in ast.walk(tree):
+        if isinstance(a, ast.FunctionDef) and a.name == 'for_all_methods':
+            deco_param = _first_param(a)
+    branch = None
+    for n in ast.walk(fam):
+        if isinstance(n, ast.If) and isinstance(n.test, ast.Call) and getattr(n.test.func, 'id', None) == 'isinstance' and len(n.test.args) == 2 \
+                and 'property' in [ast.unparse(x).split('.')[-1] for x in (n.test.args[1].elts if isinstance(n.test.args[1], ast.Tuple) else [n.test.args[1]])] \
+                and isinstance(n.test.args[0], ast.Name):
+            if branch is not None:
+                raise Skip('for_all_methods: two property branches')
+            branch = n
+    if branch is None:
+        raise Skip('for_all_methods: property branch not found')
+    member = {branch.test.args[0].id}
+    local = {}
+    built = None
+    for st in branch.body:
+        if isinstance(st, (ast.Assign, ast.AnnAssign)):
+            tgt = st.targets[0] if isinstance(st, ast.Assign) and len(st.targets) == 1 else getattr(st, 'target', None)
+            if not isinstance(tgt, ast.Name) or st.value is None:
+                raise Skip('for_all_methods: assignment in the property branch')
+            if isinstance(st.value, ast.Name) and st.value.id in member:
+                member.add(tgt.id)
+            else:
+                if tgt.id in local:
+                    raise Skip('for_all_methods: a local of the property branch is assigned twice')
+                local[tgt.id] = st.value
+        elif isinstance(st, ast.Expr) and isinstance(st.value, ast.Call) and getattr(st.value.func, 'id', None) == 'setattr' and len(st.value.args) == 3:
+            if built is not None:
+                raise Skip('for_all_methods: two setattr in the property branch')
+            built = st.value.args[2]
+        elif isinstance(st, ast.Expr) and isinstance(st.value, ast.Constant):
+            continue
+        else:
+            raise Skip(f'for_all_methods: statement in the property branch: {ast.unparse(st)[:60]}')
+
+    def resolve(e):
+        return local[e.id] if isinstance(e, ast.Name) and e.id in local else e
+    built = resolve(built) if built is not None else None
+    if not (isinstance(built, ast.Call) and getattr(built.func, 'id', None) == 'property'):
+        raise Skip('for_all_methods: the property member is not replaced by property(...)')
+    if any(isinstance(a, ast.Starred) for a in built.args) or any(k.arg is None for k in built.keywords) or len(built.args) > 3:
+        raise Skip('for_all_methods: property(...) is built from a computed argument list')
+    given = dict(zip(PROPERTY_SLOTS, built.args))
+    for k in built.keywords:
+        if k.arg in PROPERTY_SLOTS:
+            if k.arg in given:
+                raise Skip('for_all_methods: property slot given twice')
+            given[k.arg] = k.value
+        elif k.arg != 'doc':
+            raise Skip(f'for_all_methods: property({k.arg}=…)')
+    helpers = {}
+    slots = []
+    for slot in PROPERTY_SLOTS:
+        if slot not in given:
+            continue
+        e = resolve(given[slot])
+        if isinstance(e, ast.Constant) and e.value is None:
+            continue
+        if not (isinstance(e, ast.Call) and isinstance(e.func, ast.Name) and len(e.args) + len(e.keywords) == 2):
+            raise Skip(f'for_all_methods: slot {slot} of the rebuilt property: {ast.unparse(e)[:60]}')
+        h = e.func.id
+        if h not in helpers:
+            helpers[h] = _wrap_helper_ok(tree, h)
+        a_name, d_name = helpers[h]
+        hp = _params([n for n in tree.body if isinstance(n, ast.FunctionDef) and n.name == h][0])
+        args = dict(zip(hp, e.args))
+        args.update({k.arg: k.value for k in e.keywords})
+        acc, dec = args.get(a_name), args.get(d_name)
+        if not (isinstance(dec, ast.Name) and dec.id == deco_param):
+            raise Skip(f'for_all_methods: slot {slot} is not wrapped with the decorator parameter')
+        if not (isinstance(acc, ast.Attribute) and acc.attr in PROPERTY_SLOTS and isinstance(acc.value, ast.Name) and acc.value.id in member):
+            raise Skip(f'for_all_methods: slot {slot} is not built from an accessor of the member')
+        slots.append((slot, acc.attr))
+    return slots, True
 
 
 def gen_wrappers(repo):
@@ -1139,8 +1404,8 @@ def gen_wrappers(repo):
         tree = ast.parse(src(repo, rel))
         module = os.path.basename(rel)[:-3]
         for top in [n for n in tree.body if isinstance(n, (ast.FunctionDef, ast.AsyncFunctionDef))]:
-            for fn, enclosing in decorator_levels(top):
-                ident, text, r = translate_level(repo, module, top, fn, enclosing)
+            for fn, enclosing, hoisted in decorator_levels(top):
+                ident, text, r = translate_level(repo, module, top, fn, enclosing, hoisted)
                 if ident in idents:
                     raise Skip(f'two decorator levels in {top.name}')
                 idents.append(ident)
@@ -1150,7 +1415,7 @@ def gen_wrappers(repo):
     missing = [d for d in REQUIRED if d not in names]
     if missing:
         raise Skip(f'decorators not found: {missing}')
-    pairs, uses_getattr, plain, handles_property, member_types = class_decorators(repo)
+    pairs, uses_getattr, plain, handles_property, member_types, prop_slots, keeps_missing = class_decorators(repo)
     excludes_bound = instance_method_fact(repo)
     out = HEADER.format(rel='pedantic/decorators/**/fn_deco_*.py, class_decorators.py, helper_methods.py, models/decorated_function.py') + PRELUDE
     out += '\n'.join(defs)
@@ -1167,6 +1432,12 @@ def membersStoredAsPlainFunction : Bool := {lean_bool(plain)}
 def memberTypes : List String := [{", ".join(lean_str(t) for t in member_types)}]
 /-- property objects are rebuilt from decorated fget/fset/fdel -/
 def propertiesHandled : Bool := {lean_bool(handles_property)}
+/-- `property(fget=…, fset=…, fdel=…)` of the rebuilt property: (slot of the NEW property, accessor of the OLD property it is built from);
+    a slot that is not listed stays empty -/
+def rebuiltPropertySlots : List (String × String) := [{", ".join(f"({lean_str(a)}, {lean_str(b)})" for a, b in prop_slots)}]
+/-- every listed slot is `decorator(accessor) if accessor is not None else None`: a missing accessor stays missing, an existing one is
+    passed through the decorator exactly once -/
+def missingAccessorStaysMissing : Bool := {lean_bool(keeps_missing)}
 
 /-- `DecoratedFunction.is_instance_method` (what `FunctionCall` uses to take `args[0]` as the instance and to strip it from the
     arguments it complains about) answers False for a BOUND method object (`inspect.ismethod(func)`: `require_kwargs(obj.method)`)
